@@ -95,7 +95,7 @@ def encode(x):
     if type(x).__name__ == "Passthrough" and hasattr(x, "j"): return x.j
     if x is None or isinstance(x, (bool, str)): return x
     if isinstance(x, np.bool_): return bool(x)
-    if isinstance(x, (int, np.integer)): return int(x)
+    if isinstance(x, (int, np.integer)) and not isinstance(x, np.timedelta64): return int(x)      # timedelta64 is a signedinteger
     if isinstance(x, (float, np.floating)): return {"f": hex_of_float(x)}
     if isinstance(x, (np.datetime64, np.timedelta64)):
         unit = np.datetime_data(x.dtype)[0]
